@@ -17,10 +17,13 @@ from fractions import Fraction
 import fpy2 as fp
 
 from . import core, gen_prog
+from . import export as _export
 from .export import OutOfDomain, ctx_json
+
+_export.BIG_OK = True
 from .export_prog import Unsupported, export_program, value_json
 
-SCALARS = [0.0, -0.0, 1.0, 1.5, -1.25, 7.0, 0.375, float('inf'), float('nan'), Fraction(1, 3), 3]
+SCALARS = [0.0, -0.0, 1.0, 1.5, -1.25, 7.0, 0.375, float('inf'), float('nan'), Fraction(1, 3), 3, 2 ** 53 + 1]
 LISTS = [[], [1.0], [0.5, 2.0], [1.5, -0.75, 3.0], [float('nan'), 1.0], [2.0, 2.0, 2.0, 0.25]]
 
 
@@ -67,7 +70,9 @@ def input_vectors(rng: random.Random, n: int, arity_lists: int = 1, nscal: int =
     for i in range(n):
         sc = [rng.choice(SCALARS) for _ in range(nscal)]
         ls = [list(rng.choice(LISTS)) for _ in range(arity_lists)]
-        out.append((sc + ls, ctxs[i % len(ctxs)]))
+        if rng.random() < 0.15 and ls and ls[0]:
+            ls[0][0] = 2 ** 53 + 1
+        out.append((sc + ls + [rng.choice([1, 2, 3, 2, 4])], ctxs[i % len(ctxs)]))
     return out
 
 
@@ -149,3 +154,25 @@ def generate_and_load(seed: int, n: int, profile: dict | None, workdir: str, tag
         sources[name] = g.program(name)
     funcs, rejected = gen_prog.load_programs(sources, workdir, f'vprog_{tag}_{seed}')
     return sources, funcs, rejected
+
+
+def has_big(j) -> bool:
+    if isinstance(j, dict):
+        return j.get('k') == 'big' or any(has_big(v) for v in j.values())
+    if isinstance(j, list):
+        return any(has_big(v) for v in j)
+    return False
+
+
+def split_big(progs_by_pid, mm, skips):
+    """A run whose inputs contain a wide (opaque) number and in which the machine stopped with a
+    type/value error only says that the machine cannot compute on the token: it is a skip."""
+    keep = []
+    for m in mm:
+        pid, idx, clause, merr = m
+        p = progs_by_pid[pid]
+        if clause == 'missing-error' and merr in ('TypeError', 'ValueError') and has_big(p['inputs'][idx - 1]['args']):
+            skips.append((pid, idx, 'skip', 'WideValue'))
+        else:
+            keep.append(m)
+    return keep, skips
